@@ -2,6 +2,7 @@
 package c02
 
 import (
+	"bytes"
 	"fmt"
 	"strings"
 	"testing"
@@ -431,6 +432,31 @@ func checkCase(c Case, e *env.Env) (*hx.Violation, info) {
 					}
 				}
 			}
+		}
+	}
+	// the same configuration in chunked low-latency mode (chunkdur_): a thumbnail the MPD lists is still a plain image,
+	// served at once and byte-identical (media segments in that mode are C09's)
+	segMS := int64(e.Asset.LoopMS) / int64(len(e.Asset.Ref.Segs))
+	if c.Cfg.AtoMS > 0 && c.Cfg.AtoMS < segMS && segMS >= 1000 && (c.Target.Layout == nil || c.Target.Layout.Audio == "") {
+		for _, id := range e.Asset.RepsOfType(c.MPD, "image") {
+			irep := e.Asset.Reps[id]
+			itl := refmodel.NewTimeline(e.Asset, irep, c.Cfg)
+			n, _ := itl.LastAvailable(c.NowMS)
+			if n < 0 || itl.Number(n) >= 1<<32-16 {
+				continue
+			}
+			name := itl.SegName(irep, n)
+			plain := e.Srv.Get(ls.URL(parts, e.Asset.Path, name, c.NowMS))
+			if plain.Code != 200 {
+				continue // outside the window etc.: judged above
+			}
+			cu := ls.URL(append(append([]string{}, parts...), "chunkdur_"+refmodel.FormatMS(segMS/4)), e.Asset.Path, name, c.NowMS)
+			cr := e.Srv.Get(cu)
+			inf.fetched++
+			if cr.Code != 200 || !bytes.Equal(cr.Body, plain.Body) {
+				return hx.V("thumbnail-in-chunked-mode", "%s -> %d (%d bytes); without chunkdur_ the same thumbnail is served with 200 (%d bytes)", cu, cr.Code, len(cr.Body), len(plain.Body)), inf
+			}
+			inf.kinds["image-chunked-mode"] = true
 		}
 	}
 	return nil, inf
